@@ -319,6 +319,11 @@ func (t *tlopen) handle(cs *connState) message {
 	}
 	defer ref.DecRef()
 
+	// Only one open of this fid at a time: two concurrent Tlopen requests
+	// would otherwise both see opened == false and both call File.Open.
+	ref.openMu.Lock()
+	defer ref.openMu.Unlock()
+
 	var (
 		qid    QID
 		ioUnit uint32
